@@ -217,6 +217,73 @@ def run(ctx):
                     res.violation("C04:gplus-length:tal", "Gopher+ length header of a generated document differs from its body length",
                                   {"handlers": "full", "selector": "/t.html.tal"}, observed=hdr, required=b"+%d or +-2" % len(body),
                                   replay={"handlers": "full", "protocol": "gopherp", "name": "t.html.tal", "data_latin1": "", "size": 0})
+        # decompressed documents (decompressors configured): the body is the decompressed bytes in every protocol and the
+        # Gopher+ header is truthful about THAT body (the subprocess writes to the descriptor, so the response goes to a real file)
+        import gzip
+        plain = (b"decompressed line one\n  second <line> & more\n" * 400)[:ctx.rng.choice([0, 1, 4096, 9000, 17000])]
+        tree.write("doc.txt.gz", gzip.compress(plain, mtime=0))
+        tree.write("blob.dat.gz", gzip.compress(bytes(range(256)) * 20, mtime=0))
+        cfgz = pyg.make_config(tree.root, pyg.FULL_HANDLERS, **{"handlers.dir.DirHandler|cachetime": "0",
+                                                                "handlers.file.CompressedFileHandler|decompressors": "{'gzip': 'zcat'}"})
+        for zname, zdata in (("doc.txt.gz", plain), ("blob.dat.gz", bytes(range(256)) * 20)):
+            for p in ["gopher", "gopherp", "http", "https", "wap", "gemini", "spartan", "sgopher", "sgopherp"]:
+                wpath = os.path.join(tree.tmp, "w.out")
+                with open(wpath, "wb", buffering=0) as wf:
+                    r = pyg.request(reqs.build(p, "/" + zname), cfgz, tls=reqs.TLS[p], wfile=wf)
+                out = open(wpath, "rb").read()
+                os.unlink(wpath)
+                res.evaluations += 1
+                inp = {"handlers": "full+decompressors", "protocol": p, "selector": "/" + zname, "decompressed_size": len(zdata)}
+                rp = {"handlers": "full+decompressors", "protocol": p, "name": zname, "data_latin1": "", "size": len(zdata)}
+                if r.exc is not None or r.exceptions():
+                    res.violation(f"C04:decompressed-not-served:{p}", "a compressed document is not served although its decompressor is configured", inp,
+                                  observed={"exc": repr(r.exc), "log": r.log[-2:], "out": out[:80]}, required="the decompressed document", replay=rp)
+                    continue
+                if r.handler != "CompressedFileHandler":
+                    res.count("decompress:other-handler:" + str(r.handler))
+                    continue
+                res.nontrivial.add((len(zdata), "gz", p))
+                body = out if p in ("gopher", "sgopher") else reqs.body_of(p, out)
+                if p == "wap" and zname.endswith(".txt.gz"):
+                    if wml_invert(body) != file_lines(zdata):
+                        res.violation("C04:decompressed-body:wap", "WML conversion of a decompressed text document lost lines", inp, observed=body[:120], required="the lines", replay=rp)
+                elif body != zdata:
+                    res.violation(f"C04:decompressed-body:{p}", "the body of a decompressed document is not the decompressed bytes", inp,
+                                  observed=(len(body), body[:60]), required=(len(zdata), zdata[:60]), replay=rp)
+                if p in ("gopherp", "sgopherp"):
+                    hdr = out[:out.find(b"\r\n")]
+                    if hdr != b"+-2" and hdr != b"+%d" % len(body):
+                        res.violation("C04:gplus-length:decompressed", "Gopher+ length header of a decompressed document differs from its body length", inp,
+                                      observed=hdr, required=b"+%d or +-2" % len(body), replay=rp)
+        # the same documents through a REAL server with real TLS: what the client decrypts is the document
+        import realsrv
+        cfgr = pyg.make_config(tree.root, pyg.FULL_HANDLERS, **dict(realsrv.tls_options(), **{
+            "handlers.dir.DirHandler|cachetime": "0", "handlers.file.CompressedFileHandler|decompressors": "{'gzip': 'zcat'}",
+            "pygopherd|servertype": "ForkingTCPServer", "pygopherd|port": "0", "pygopherd|interface": "127.0.0.1", "pygopherd|servername": "localhost"}))
+        real_docs = [("doc.txt.gz", plain), (files[3][0].decode("latin-1"), files[3][1]) if all(32 < c < 127 for c in files[3][0]) else ("doc.txt.gz", plain),
+                     ("script.sh", None)]
+        tree.write("script.sh", b"#!/bin/sh\necho script output $SELECTOR\n", mode=0o755)
+        with realsrv.RealServer(cfgr, tree.tmp) as srv:
+            for zname, zdata in real_docs:
+                for p in ["gopher", "sgopher", "https", "gemini", "sgopherp", "http"]:
+                    try:
+                        out = realsrv.ask(srv.port, reqs.build(p, "/" + zname), tls=reqs.TLS[p], timeout=20)
+                    except Exception as e:  # noqa
+                        out = b"CLIENT-ERROR " + repr(e).encode()
+                    res.evaluations += 1
+                    if zdata is None:
+                        zd = b"script output /script.sh\n"
+                    else:
+                        zd = zdata
+                    body = out if p in ("gopher", "sgopher") else (reqs.body_of(p, out) if reqs.classify(p, out)[0] == "ok" else out)
+                    inp = {"server": "real ForkingTCPServer", "tls": reqs.TLS[p], "protocol": p, "selector": "/" + zname}
+                    if body != zd:
+                        res.violation("C04:real-server-body:" + ("tls" if reqs.TLS[p] else "plain") + ":" + ("generated" if zdata is None or zname.endswith(".gz") else "file"),
+                                      "the document a real client receives differs from the document", inp,
+                                      observed=(len(body), body[:80]), required=(len(zd), zd[:80]),
+                                      replay={"handlers": "real-server", "protocol": p, "name": zname, "data_latin1": "", "size": len(zd)})
+                    else:
+                        res.nontrivial.add(("real", zname[-6:], p))
         # copy loop: blocks written by the real copyto vs the model's chunks
         from pygopherd.handlers.base import VFS_Real
 
